@@ -156,7 +156,12 @@ func (w *world) checkState() *simcore.Violation {
 	}
 	if !w.bc.HasState(head.Root) {
 		// the one documented exception: path scheme, genesis, below the pivot (never here)
-		return viol("head-state-missing", "HasState(root of CurrentBlock #%d)=false", head.Number)
+		_, err := w.bc.TrieDB().NodeReader(head.Root)
+		extra := ""
+		if p := w.bc.TrieDB().VerifChainsimPathDB(); p != nil {
+			extra = "; pathdb " + p.VerifChainsimLayers()
+		}
+		return viol("head-state-missing", "HasState(root of CurrentBlock #%d)=false (%v%s)", head.Number, err, extra)
 	}
 	if err := walkTrie(w.bc, head.Root); err != nil {
 		return viol("head-state-incomplete", "state of CurrentBlock #%d does not resolve: %v", head.Number, err)
